@@ -103,8 +103,7 @@ def rule_boundary(ctx, py, tu, R="C04.BOUNDARY"):
     ctx.floor(R, 22)
 
 
-def rule_inherit(ctx, py):
-    R = "C04.INHERIT"
+def rule_inherit(ctx, py, R="C04.INHERIT"):
     f = py.fn("value_processing.retrive_units_system_from_dict")
     found = []
 
@@ -126,10 +125,11 @@ def rule_inherit(ctx, py):
     n = 0
     for rq, wq, cq in c12.PAIRS + [("rdspace.rdspace_from_dict", None, None)]:
         g = py.fn(rq)
-        if "parent_units_system" not in pyfe.params(g):
+        top = rq == "rdscript.rdscript_from_dict"      # the script level has no parent, but its children inherit from it
+        if "parent_units_system" not in pyfe.params(g) and not top:
             continue
         isdisp = rq.startswith("rdspace.")
-        if not isdisp:
+        if not isdisp and not top:
             d = [st for st in ast.walk(g) if isinstance(st, ast.Assign) and pyfe.src(st.targets[0]) == "da['units_system']"]
             ok = len(d) == 1 and isinstance(d[0].value, ast.Call) and \
                 pyfe.call_name(d[0].value).endswith("retrive_units_system_from_dict")
